@@ -133,7 +133,7 @@ fn report_failure(args: &Args, rep: &mut Report, ast: &OpeningHoursExpression, h
 }
 
 pub fn run(args: &Args, rep: &mut Report) {
-    let n = args.cases(200_000, 2_000_000);
+    let n = args.cases(200_000, 400_000);
     let (targeted, random, sweep) = if args.thorough() { (300, 200, 400) } else { (64, 48, 0) };
     for k in 0..n {
         let cfg = GenCfg::standard(args.thorough()).rotated(k);
@@ -179,7 +179,7 @@ pub fn run(args: &Args, rep: &mut Report) {
     }
     // thorough: single-selector expressions swept day by day over 1900..2100
     if args.thorough() {
-        let n = args.cases(0, 3_000);
+        let n = args.cases(0, 600);
         for k in 0..n {
             let mut cfg = GenCfg::standard(true).rotated(k);
             cfg.focus_pct = 100;
